@@ -1878,3 +1878,20 @@ pub fn regenerate_id<'a>(id: &'a str, strategy: &'a IdStrategy) -> String {
         }
     }
 }
+
+#[cfg(stam_verif)]
+impl<HandleType> IdMap<HandleType>
+where
+    HandleType: Handle,
+{
+    /// Verification hook: all (public id, handle) entries, sorted by id
+    pub fn verif_entries(&self) -> Vec<(String, usize)> {
+        let mut v: Vec<(String, usize)> = self
+            .data
+            .iter()
+            .map(|(k, h)| (k.clone(), h.as_usize()))
+            .collect();
+        v.sort();
+        v
+    }
+}
